@@ -6,8 +6,17 @@ import Poulpy.Lemmas.ExpandIdx
 import Poulpy.Lemmas.ExpandPhase
 import Poulpy.Lemmas.NegHal
 import Poulpy.Lemmas.EpBridge
+import Poulpy.Lemmas.EpKs
 import Poulpy.Model.Core.Mul
 import Poulpy.Props.C03
+import Poulpy.Props.C02
+import Poulpy.Props.C08
+import Poulpy.Lemmas.MulTensor
+import Poulpy.Lemmas.EpNorm
+import Poulpy.Lemmas.GadgetCore
+import Poulpy.Lemmas.ValBridge
+import Poulpy.Lemmas.AccAdd
+import Poulpy.Lemmas.MulNorm
 
 /-!
 # C04 — external products and CMux multiply by the EpGGSW plaintext within noise
@@ -355,12 +364,635 @@ example : Ks.phaseRow [] ((Core.gglweProductDft [[[2]]]
       { base2k := 4, n := 1, colsIn := 1, colsOut := 1, dsize := 1, dnum := 1, size := 1, cells := [[[[3]]]] } 1 [[[9]]]).map
         (fun col => limbOr0 1 col 0)) = [6] := by decide
 
-/-
-NOT PROVED: the phase statement of `Core.epInternal` for `dsize > 1` (its loop differs from `gglwe_product_dft` only by
-the missing `.min(dnum)` on the digit buffer, which `vmp` truncates anyway — `C07.vmp_row_truncation`; the accumulation
-lemma `C03.product_accum_dsize_gt1` is proved for the clamped loop and is not transported); for `dsize > 1` the
-layer-B identity (`ep_identity` per pass via `vmp_phase`, C03's regrouping lemmas) is therefore about `Hal.vmpFlat`, not
-about `epInternal`.  Determinacy (`epInternal_determined`) holds for every `dsize`.
--/
+/-! ## The executed external product for every digit size -/
 
+/-- **The executed `glwe_external_product_internal` is C03's `gglwe_product_dft`** on the GGSW seen as a key with `rank+1`
+input columns — for every digit size and any prior content of the two scratch buffers.  (The external product does not clamp
+its digit buffer to `dnum` rows; the vector-matrix product reads at most `dnum` rows anyway.) -/
+theorem epInternal_eq_gglwe_product (a : List Col) (g : EpGGSW) (res0 tmp0 : List Col) (hd : 1 ≤ g.dsize)
+    (ha : shapeOk g.n (g.rank + 1) (a.getD 0 []).length a = true)
+    (h0 : shapeOk g.n (g.rank + 1) g.size res0 = true) (ht : shapeOk g.n (g.rank + 1) g.size tmp0 = true) :
+    epInternal a g res0 tmp0 =
+      (List.range (g.rank + 1)).map
+        (Ks.gglweProductDft (mkBuf g.n (g.rank + 1) g.size res0) (mkBuf g.n (g.rank + 1) (a.getD 0 []).length a) g.toKey).act :=
+  epInternal_eq_ks a g res0 tmp0 hd ha h0 ht
+
+example : epInternal [[[1], [2], [3]], [[0], [1], [0]]] staleG (zeroCols 1 2 4) (zeroCols 1 2 4) =
+    (List.range 2).map (Ks.gglweProductDft (mkBuf 1 2 4 (zeroCols 1 2 4)) (mkBuf 1 2 3 [[[1], [2], [3]], [[0], [1], [0]]]) staleG.toKey).act :=
+  epInternal_eq_gglwe_product _ staleG _ _ (by decide) (by decide) (by decide) (by decide)
+
+/-- **`ep_executed_phase`** — layer A for every `dsize ≥ 1`, on the executed definition: in `R N = ℤ[X]/(X^N+1)` the phase
+(under any secret) of limb `l` of what `Core.epInternal` returns is the abstract gadget accumulation `Gadget.acc` (the
+`dsize` passes with `(step, offset) = (dsize, dsize−1−di)`, `limb_offset = di` and the size truncation) summed over the
+`rank+1` input columns, with `a_i[m]` = limb `m` of input column `i` and `φ_i r l` = phase of limb `l` of GGSW row `r`,
+column `i`. -/
+theorem ep_executed_phase (N : Nat) (sk : List Poly) (a : List Col) (g : EpGGSW) (res0 tmp0 : List Col) (l : Nat)
+    (hd : 1 ≤ g.dsize) (hN : 0 < N) (hn : g.n = N)
+    (ha : shapeOk g.n (g.rank + 1) (a.getD 0 []).length a = true)
+    (h0 : shapeOk g.n (g.rank + 1) g.size res0 = true) (ht : shapeOk g.n (g.rank + 1) g.size tmp0 = true)
+    (hM : ∀ j q, (g.toPMat.entry j q).length = N) :
+    Ks.ι N (Ks.phaseRow sk ((epInternal a g res0 tmp0).map (fun col => limbOr0 N col l)))
+      = ∑ i ∈ Finset.range (g.rank + 1),
+          Gadget.acc g.size g.dsize g.dnum (a.getD 0 []).length
+            (Ks.inLimb N (mkBuf g.n (g.rank + 1) (a.getD 0 []).length a) i) (Ks.keyPhase N sk g.toPMat i) l := by
+  rw [epInternal_eq_ks a g res0 tmp0 hd ha h0 ht, List.map_map]
+  have s0 := (mkBuf_shape g.n (g.rank + 1) g.size res0 h0).1
+  exact C03.keyswitch_phase N sk (mkBuf g.n (g.rank + 1) g.size res0) (mkBuf g.n (g.rank + 1) (a.getD 0 []).length a) g.toKey l
+    hd hN s0.1 rfl rfl rfl (Nat.succ_pos _) hn hn rfl hM
+
+example (l : Nat) : Ks.ι 1 (Ks.phaseRow [[1]] ((epInternal [[[1], [2], [3]], [[0], [1], [0]]] staleG (zeroCols 1 2 4) (zeroCols 1 2 4)).map
+      (fun col => limbOr0 1 col l)))
+    = ∑ i ∈ Finset.range 2, Gadget.acc 4 3 1 3 (Ks.inLimb 1 (mkBuf 1 2 3 [[[1], [2], [3]], [[0], [1], [0]]]) i)
+        (Ks.keyPhase 1 [[1]] staleG.toPMat i) l :=
+  ep_executed_phase 1 [[1]] _ staleG _ _ l (by decide) (by decide) rfl (by decide) (by decide) (by decide)
+    (Ks.entry_length staleG.toPMat 1 rfl (by decide))
+
+/-- **`ep_executed_identity`** — the external-product identity on the executed model, every `dsize ≥ 1`, with the explicit
+dropped-limb terms.  If GGSW row `r`, input column `i` has phase value `m2·σ_i·β^{S−(r+1)·dsize} + E_{i,r}` (`β = 2^b`, `σ_0 = 1`,
+`σ_i = s_i`: what `ggsw_encrypt_sk` produces, checked cell by cell by the oracle), the value of the phase of the executed product is
+`m2 · Σ_i σ_i·usedVal(a_i)  +  Σ_i (Σ_r digit_{i,r}·E_{i,r} − dropped_i − β^S·head_i)`:
+`Σ_i σ_i·usedVal(a_i)` is the value of the phase of the decomposed GLWE over the limbs the gadget uses (all of them when
+`a_size ≤ dnum·dsize`, `C03.used_value_is_input_value`), `dropped` the product limbs cut by `res.set_size`, `β^S·head` a multiple of the
+torus modulus.  Holds for the GLWE, GGLWE and GGSW products (each cell), and for the accumulators of CMux and Cswap. -/
+theorem ep_executed_identity (N : Nat) (sk : List Poly) (a : List Col) (g : EpGGSW) (res0 tmp0 : List Col)
+    (β m2 : Ks.R N) (σ : ℕ → Ks.R N) (E : ℕ → ℕ → Ks.R N)
+    (hd : 1 ≤ g.dsize) (hN : 0 < N) (hn : g.n = N)
+    (ha : shapeOk g.n (g.rank + 1) (a.getD 0 []).length a = true)
+    (h0 : shapeOk g.n (g.rank + 1) g.size res0 = true) (ht : shapeOk g.n (g.rank + 1) g.size tmp0 = true)
+    (hM : ∀ j q, (g.toPMat.entry j q).length = N) (hS : g.dnum * g.dsize ≤ g.size)
+    (hkey : ∀ i, i < g.rank + 1 → ∀ r, r < g.dnum →
+      Gadget.val β g.size (Ks.keyPhase N sk g.toPMat i r) = m2 * σ i * β ^ (g.size - (r + 1) * g.dsize) + E i r) :
+    ∑ l ∈ Finset.range g.size,
+        Ks.ι N (Ks.phaseRow sk ((epInternal a g res0 tmp0).map (fun col => limbOr0 N col l))) * β ^ (g.size - 1 - l)
+      = m2 * ∑ i ∈ Finset.range (g.rank + 1),
+            σ i * Gadget.usedVal β g.size g.dsize g.dnum (a.getD 0 []).length
+              (Ks.inLimb N (mkBuf g.n (g.rank + 1) (a.getD 0 []).length a) i)
+        + ∑ i ∈ Finset.range (g.rank + 1),
+            (∑ r ∈ Finset.range g.dnum,
+                Gadget.digit β g.dsize g.dnum (a.getD 0 []).length (Ks.inLimb N (mkBuf g.n (g.rank + 1) (a.getD 0 []).length a) i) r * E i r
+              - Gadget.dropped β g.size g.dsize g.dnum (a.getD 0 []).length
+                  (Ks.inLimb N (mkBuf g.n (g.rank + 1) (a.getD 0 []).length a) i) (Ks.keyPhase N sk g.toPMat i)
+              - β ^ g.size * Gadget.head β g.dsize g.dnum (a.getD 0 []).length
+                  (Ks.inLimb N (mkBuf g.n (g.rank + 1) (a.getD 0 []).length a) i) (Ks.keyPhase N sk g.toPMat i)) := by
+  rw [epInternal_eq_ks a g res0 tmp0 hd ha h0 ht]
+  simp only [List.map_map]
+  have s0 := (mkBuf_shape g.n (g.rank + 1) g.size res0 h0).1
+  have h := C03.keyswitch_value N sk (mkBuf g.n (g.rank + 1) g.size res0) (mkBuf g.n (g.rank + 1) (a.getD 0 []).length a) g.toKey β
+    (fun i => m2 * σ i) E hd hN s0.1 rfl rfl rfl (Nat.succ_pos _) hn hn rfl hM hS hkey
+  refine Eq.trans h ?_
+  show ∑ i ∈ Finset.range (g.rank + 1), _ = _
+  rw [Finset.mul_sum, ← Finset.sum_add_distrib]
+  apply Finset.sum_congr rfl
+  intro i _
+  exact Core.ring_regroup _ _ _ _ _ _
+
+
+/-- non-vacuity: for any `β`, `m2`, `σ` the key relation holds with `E` := the difference, here on the `dsize = 3` GGSW `staleG` -/
+example (β m2 : Ks.R 1) (σ : ℕ → Ks.R 1) :
+    ∑ l ∈ Finset.range 4,
+        Ks.ι 1 (Ks.phaseRow [[1]] ((epInternal [[[1], [2], [3]], [[0], [1], [0]]] staleG (zeroCols 1 2 4) (zeroCols 1 2 4)).map
+          (fun col => limbOr0 1 col l))) * β ^ (4 - 1 - l)
+      = m2 * ∑ i ∈ Finset.range 2, σ i * Gadget.usedVal β 4 3 1 3 (Ks.inLimb 1 (mkBuf 1 2 3 [[[1], [2], [3]], [[0], [1], [0]]]) i)
+        + ∑ i ∈ Finset.range 2,
+            (∑ r ∈ Finset.range 1, Gadget.digit β 3 1 3 (Ks.inLimb 1 (mkBuf 1 2 3 [[[1], [2], [3]], [[0], [1], [0]]]) i) r *
+                (Gadget.val β 4 (Ks.keyPhase 1 [[1]] staleG.toPMat i r) - m2 * σ i * β ^ (4 - (r + 1) * 3))
+              - Gadget.dropped β 4 3 1 3 (Ks.inLimb 1 (mkBuf 1 2 3 [[[1], [2], [3]], [[0], [1], [0]]]) i) (Ks.keyPhase 1 [[1]] staleG.toPMat i)
+              - β ^ 4 * Gadget.head β 3 1 3 (Ks.inLimb 1 (mkBuf 1 2 3 [[[1], [2], [3]], [[0], [1], [0]]]) i) (Ks.keyPhase 1 [[1]] staleG.toPMat i)) :=
+  ep_executed_identity 1 [[1]] _ staleG _ _ β m2 σ
+    (fun i r => Gadget.val β 4 (Ks.keyPhase 1 [[1]] staleG.toPMat i r) - m2 * σ i * β ^ (4 - (r + 1) * 3))
+    (by decide) (by decide) rfl (by decide) (by decide) (by decide) (Ks.entry_length staleG.toPMat 1 rfl (by decide)) (by decide)
+    (by intro i _ r _; exact (add_sub_cancel _ _).symm)
+
+/-- entry points → the executed product: `glwe_external_product` (hence every cell of the GGLWE / GGSW forms, which call it)
+normalises `epInternal` of the radix-converted input with zeroed scratch … -/
+theorem glweExternalProduct_accumulator (big128 : Bool) (n rb rs : Nat) (a : List Col) (ab : Nat) (g : EpGGSW) (aConv : List Col)
+    (hg : (g.n == n && g.wf && shapeOk n (g.rank + 1) (a.getD 0 []).length a) = true)
+    (hc : epConvert n a ab g = some aConv) :
+    glweExternalProduct big128 n rb rs a ab g =
+      optOutcome ((epInternal aConv g (zeroCols n (g.rank + 1) g.size) (zeroCols n (g.rank + 1) g.size)).mapM
+        (fun c => epBigNormalize big128 n rb rs c g.base2k)) := by
+  unfold glweExternalProduct
+  simp only [hg, Bool.not_true, Bool.false_eq_true, if_false, hc]
+
+example : glweExternalProduct false 1 4 4 [[[1], [2], [3]], [[0], [1], [0]]] 4 staleG =
+    optOutcome ((epInternal [[[1], [2], [3]], [[0], [1], [0]]] staleG (zeroCols 1 2 4) (zeroCols 1 2 4)).mapM
+      (fun c => epBigNormalize false 1 4 4 c 4)) :=
+  glweExternalProduct_accumulator false 1 4 4 _ 4 staleG _ (by decide) (by decide)
+
+/-- … and `Cmux::cmux` / `Cswap::cswap` add `f` (resp. add / subtract from `res_a` / `res_b`) to `epInternal` of the difference:
+`ep_executed_identity` applied to `a := t − f` (resp. `res_b − res_a`) is the executed form of `cmux_selects` / `cswap_swaps`. -/
+theorem cmux_accumulator (big128 : Bool) (n rb rs : Nat) (t f : List Col) (g : EpGGSW) (res0 tmp0 : List Col)
+    (hg : (g.n == n && g.wf && rb == g.base2k && shapeOk n (g.rank + 1) (t.getD 0 []).length t
+       && shapeOk n (g.rank + 1) (f.getD 0 []).length f) = true) :
+    cmux big128 n rb rs t f g res0 tmp0 =
+      optOutcome ((List.range (g.rank + 1)).mapM (fun j =>
+        epBigNormalize big128 n rb rs
+          (bigAddSmallAssign big128 ((epInternal (glweSubSameRank n rs t f) g res0 tmp0).getD j []) (f.getD j [])) g.base2k)) := by
+  unfold cmux cmuxTail
+  simp only [hg, Bool.not_true, Bool.false_eq_true, if_false]
+
+example : cmux false 1 4 3 [[[1], [2], [3]], [[0], [1], [0]]] [[[0], [0], [1]], [[0], [0], [0]]] staleG (zeroCols 1 2 4) (zeroCols 1 2 4) =
+    optOutcome ((List.range 2).mapM (fun j => epBigNormalize false 1 4 3
+      (bigAddSmallAssign false ((epInternal (glweSubSameRank 1 3 [[[1], [2], [3]], [[0], [1], [0]]] [[[0], [0], [1]], [[0], [0], [0]]])
+        staleG (zeroCols 1 2 4) (zeroCols 1 2 4)).getD j []) ([[[0], [0], [1]], [[0], [0], [0]]].getD j [])) 4)) :=
+  cmux_accumulator false 1 4 3 _ _ staleG _ _ (by decide)
+
+/-- `Cswap::cswap` → the executed product: both outputs are normalisations of `res_a + P` and `res_b − P` with
+`P = epInternal (res_b − res_a)`; `ep_executed_identity` applied to `a := res_b − res_a` is the executed form of `cswap_swaps`. -/
+theorem cswap_accumulator (big128 : Bool) (n rb : Nat) (ra rbb : List Col) (g : EpGGSW) (res0 tmp0 : List Col)
+    (hg : (g.n == n && g.wf && shapeOk n (g.rank + 1) (ra.getD 0 []).length ra && shapeOk n (g.rank + 1) (rbb.getD 0 []).length rbb) = true)
+    (hb : rb = g.base2k) :
+    cswap big128 n rb ra rbb g res0 tmp0 =
+      (match (List.range (g.rank + 1)).mapM (fun j => epBigNormalize big128 n rb (ra.getD 0 []).length
+          (bigAddSmallInto big128 n g.size
+            ((epInternal (glweSubSameRank n (max (ra.getD 0 []).length (rbb.getD 0 []).length) rbb ra) g res0 tmp0).getD j []) (ra.getD j [])) g.base2k),
+        (List.range (g.rank + 1)).mapM (fun j => epBigNormalize big128 n rb (rbb.getD 0 []).length
+          (bigSubSmallA big128 n g.size (rbb.getD j [])
+            ((epInternal (glweSubSameRank n (max (ra.getD 0 []).length (rbb.getD 0 []).length) rbb ra) g res0 tmp0).getD j [])) g.base2k) with
+      | some x, some y => .ok (x, y)
+      | _, _ => .err "fuel") := by
+  subst hb
+  unfold cswap
+  simp only [hg, Bool.not_true, Bool.false_eq_true, if_false, ne_eq, not_true_eq_false]
+  split <;> split <;> simp_all
+
+example : cswap false 1 4 [[[1], [2], [3]], [[0], [1], [0]]] [[[0], [0], [1]], [[0], [0], [0]]] staleG (zeroCols 1 2 4) (zeroCols 1 2 4) =
+    (match (List.range 2).mapM (fun j => epBigNormalize false 1 4 3 (bigAddSmallInto false 1 4
+          ((epInternal (glweSubSameRank 1 (max 3 3) [[[0], [0], [1]], [[0], [0], [0]]] [[[1], [2], [3]], [[0], [1], [0]]]) staleG
+            (zeroCols 1 2 4) (zeroCols 1 2 4)).getD j []) ([[[1], [2], [3]], [[0], [1], [0]]].getD j [])) 4),
+      (List.range 2).mapM (fun j => epBigNormalize false 1 4 3 (bigSubSmallA false 1 4 ([[[0], [0], [1]], [[0], [0], [0]]].getD j [])
+          ((epInternal (glweSubSameRank 1 (max 3 3) [[[0], [0], [1]], [[0], [0], [0]]] [[[1], [2], [3]], [[0], [1], [0]]]) staleG
+            (zeroCols 1 2 4) (zeroCols 1 2 4)).getD j [])) 4) with
+    | some x, some y => .ok (x, y)
+    | _, _ => .err "fuel") :=
+  cswap_accumulator false 1 4 _ _ staleG _ _ (by decide) rfl
+
+/-! ## Row expansion on the executed model, every key digit size and every rank -/
+
+/-- **`expand_product_phase`** — the gadget product `Core.expandRowCols` executes for output column `c+1`
+(`gglwe_product_dft(res_dft, a_dft, tsk.at(c))`, on the `rank` mask columns `aDft` of the row): the phase of limb `l` is C03's gadget
+accumulation over the `rank` input columns, for every key digit size `dsize ≥ 1`, every rank, any prior content of `res_dft`. -/
+theorem expand_product_phase (N : Nat) (sk : List Poly) (aDft : List Col) (t : ToGGSWKey) (c : Nat) (res0 : List Col) (l : Nat)
+    (hd : 1 ≤ t.dsize) (hN : 0 < N) (hn : t.n = N)
+    (h0 : shapeOk t.n (t.rank + 1) t.size res0 = true) (hM : ∀ j q, ((t.at c).toPMat.entry j q).length = N) :
+    Ks.ι N (Ks.phaseRow sk ((Core.gglweProductDft aDft (t.at c) t.size res0).map (fun col => limbOr0 N col l)))
+      = ∑ i ∈ Finset.range t.rank,
+          Gadget.acc t.size t.dsize t.dnum (aDft.getD 0 []).length
+            (Ks.inLimb N (mkBuf t.n t.rank (aDft.getD 0 []).length aDft) i) (Ks.keyPhase N sk (t.at c).toPMat i) l :=
+  gglweProductDft_phase N sk aDft (t.at c) res0 l hd hN hn (Nat.succ_pos _) h0 hM
+
+/-- a rank-1 key with `dsize = 2` (one row, three limbs) -/
+def exT : ToGGSWKey :=
+  { base2k := 4, n := 1, rank := 1, dsize := 2, dnum := 1, size := 3, keys := [[[[[1], [0], [0]], [[0], [1], [0]]]]] }
+
+example (l : Nat) : Ks.ι 1 (Ks.phaseRow [[1]] ((Core.gglweProductDft [[[2], [1]]] (exT.at 0) 3 (zeroCols 1 2 3)).map (fun col => limbOr0 1 col l)))
+    = ∑ i ∈ Finset.range 1, Gadget.acc 3 2 1 2 (Ks.inLimb 1 (mkBuf 1 1 2 [[[2], [1]]]) i) (Ks.keyPhase 1 [[1]] (exT.at 0).toPMat i) l :=
+  expand_product_phase 1 [[1]] [[[2], [1]]] exT 0 (zeroCols 1 2 3) l (by decide) (by decide) rfl (by decide)
+    (Ks.entry_length (exT.at 0).toPMat 1 rfl (by decide))
+
+/-- **`expand_executed_identity`** — `row_expansion_identity` on the executed model, every key digit size, every rank.  Output column
+`c+1` of a row is the executed product above plus the (radix-converted) body added to column `c+1`, so the value of its phase is
+`Σ_l phase(prod)_l·β^{S−1−l} + s_c·body`.  If the key's input column `i`, row `r` has phase value `s_c·s_i·β^{S−(r+1)·dsize} + E_{i,r}`
+(the oracle checks every key cell against `s_c·s_i`: this is where a wrong secret-tensor index shows) and the row's phase is
+`body + Σ_i s_i·usedVal(a_i) = Me` (`= m2·β^{S−(row+1)·dsize_a·…} + e₀` when no limb is dropped), the cell has phase value
+`s_c·Me + Σ_i (Σ_r digit·E − dropped − β^S·head)`: the same `m2` as column 0 in every column of every row. -/
+theorem expand_executed_identity (N : Nat) (sk : List Poly) (aDft : List Col) (t : ToGGSWKey) (c : Nat) (res0 : List Col)
+    (β sc body Me : Ks.R N) (σ : ℕ → Ks.R N) (E : ℕ → ℕ → Ks.R N)
+    (hd : 1 ≤ t.dsize) (hN : 0 < N) (hn : t.n = N)
+    (h0 : shapeOk t.n (t.rank + 1) t.size res0 = true) (hM : ∀ j q, ((t.at c).toPMat.entry j q).length = N)
+    (hS : t.dnum * t.dsize ≤ t.size)
+    (hkey : ∀ i, i < t.rank → ∀ r, r < t.dnum →
+      Gadget.val β t.size (Ks.keyPhase N sk (t.at c).toPMat i r) = sc * σ i * β ^ (t.size - (r + 1) * t.dsize) + E i r)
+    (hrow : body + ∑ i ∈ Finset.range t.rank,
+        σ i * Gadget.usedVal β t.size t.dsize t.dnum (aDft.getD 0 []).length (Ks.inLimb N (mkBuf t.n t.rank (aDft.getD 0 []).length aDft) i) = Me) :
+    ∑ l ∈ Finset.range t.size,
+        Ks.ι N (Ks.phaseRow sk ((Core.gglweProductDft aDft (t.at c) t.size res0).map (fun col => limbOr0 N col l))) * β ^ (t.size - 1 - l)
+      + sc * body
+      = sc * Me + ∑ i ∈ Finset.range t.rank,
+            (∑ r ∈ Finset.range t.dnum,
+                Gadget.digit β t.dsize t.dnum (aDft.getD 0 []).length (Ks.inLimb N (mkBuf t.n t.rank (aDft.getD 0 []).length aDft) i) r * E i r
+              - Gadget.dropped β t.size t.dsize t.dnum (aDft.getD 0 []).length
+                  (Ks.inLimb N (mkBuf t.n t.rank (aDft.getD 0 []).length aDft) i) (Ks.keyPhase N sk (t.at c).toPMat i)
+              - β ^ t.size * Gadget.head β t.dsize t.dnum (aDft.getD 0 []).length
+                  (Ks.inLimb N (mkBuf t.n t.rank (aDft.getD 0 []).length aDft) i) (Ks.keyPhase N sk (t.at c).toPMat i)) := by
+  have h := gglweProductDft_value N sk aDft (t.at c) res0 β sc σ E hd hN hn (Nat.succ_pos _) h0 hM hS hkey
+  rw [show (∑ l ∈ Finset.range t.size,
+        Ks.ι N (Ks.phaseRow sk ((Core.gglweProductDft aDft (t.at c) t.size res0).map (fun col => limbOr0 N col l))) * β ^ (t.size - 1 - l)) = _ from h,
+    ← hrow]
+  exact Core.expand_regroup _ _ _ _
+
+/-- non-vacuity: the `dsize = 2` key `exT`, `E` := the difference, `Me` := the row phase -/
+example (β sc body : Ks.R 1) (σ : ℕ → Ks.R 1) :
+    ∑ l ∈ Finset.range 3,
+        Ks.ι 1 (Ks.phaseRow [[1]] ((Core.gglweProductDft [[[2], [1]]] (exT.at 0) 3 (zeroCols 1 2 3)).map (fun col => limbOr0 1 col l))) * β ^ (3 - 1 - l)
+      + sc * body
+      = sc * (body + ∑ i ∈ Finset.range 1, σ i * Gadget.usedVal β 3 2 1 2 (Ks.inLimb 1 (mkBuf 1 1 2 [[[2], [1]]]) i))
+        + ∑ i ∈ Finset.range 1,
+            (∑ r ∈ Finset.range 1, Gadget.digit β 2 1 2 (Ks.inLimb 1 (mkBuf 1 1 2 [[[2], [1]]]) i) r *
+                (Gadget.val β 3 (Ks.keyPhase 1 [[1]] (exT.at 0).toPMat i r) - sc * σ i * β ^ (3 - (r + 1) * 2))
+              - Gadget.dropped β 3 2 1 2 (Ks.inLimb 1 (mkBuf 1 1 2 [[[2], [1]]]) i) (Ks.keyPhase 1 [[1]] (exT.at 0).toPMat i)
+              - β ^ 3 * Gadget.head β 2 1 2 (Ks.inLimb 1 (mkBuf 1 1 2 [[[2], [1]]]) i) (Ks.keyPhase 1 [[1]] (exT.at 0).toPMat i)) :=
+  expand_executed_identity 1 [[1]] [[[2], [1]]] exT 0 (zeroCols 1 2 3) β sc body _ σ
+    (fun i r => Gadget.val β 3 (Ks.keyPhase 1 [[1]] (exT.at 0).toPMat i r) - sc * σ i * β ^ (3 - (r + 1) * 2))
+    (by decide) (by decide) rfl (by decide) (Ks.entry_length (exT.at 0).toPMat 1 rfl (by decide)) (by decide)
+    (by intro i _ r _; exact (add_sub_cancel _ _).symm) rfl
+
+/-! ## The final `vec_znx_big_normalize` (torus-wrap step) -/
+
+/-- **the torus-wrap step, equal radices, outright** (FFT64 accumulator; the NTT120 one is `C08.big_normalize128_inter_value` in the same
+way): every coefficient of every column of the result is `C08`'s same-radix normalisation of the accumulator's coefficient — balanced
+digits, equal on the torus up to one unit of the result's last limb, and exactly equal when the result has enough limbs. -/
+theorem ep_result_coeff_same_radix {b n rs : Nat} {H : Int} (hr : NormL.HeadRoom 64 b 0 H) (x C : Col)
+    (hx : ∀ l ∈ x, ∀ v ∈ l, |v| ≤ H) (h : epBigNormalize false n b rs x b = some C) (t : Nat) (ht : t < n) :
+    coefAt C t = normalizeInterCoef 64 b rs 0 (coefAt x t) ∧
+    (∀ d ∈ coefAt C t, NormL.Balanced b d) ∧
+    NormL.TorusNear (valI b (coefAt C t)) (b * rs) (valI b (coefAt x t)) (b * x.length) ∧
+    (b * x.length ≤ b * rs → NormL.TorusEq (valI b (coefAt C t)) (b * rs) (valI b (coefAt x t)) (b * x.length)) := by
+  have hm : (List.range n).mapM (fun i => normalizeCoef b rs 0 b (coefAt x i))
+      = some ((List.range n).map (fun i => normalizeInterCoef 64 b rs 0 (coefAt x i))) :=
+    mapM_some_of_forall _ _ _ (fun i _ => by unfold normalizeCoef; simp)
+  have hC : C = ofCoefs rs ((List.range n).map (fun i => normalizeInterCoef 64 b rs 0 (coefAt x i))) := by
+    unfold epBigNormalize bigNormalizeCol64? normalizeCol? mapCoefs? at h
+    simp only [Bool.false_eq_true, if_false, hm, Option.map_some, Option.some.injEq] at h
+    exact h.symm
+  have ha : ∀ v ∈ coefAt x t, |v| ≤ H := by
+    intro v hv
+    unfold coefAt at hv
+    simp only [List.mem_map] at hv
+    obtain ⟨l, hl, rfl⟩ := hv
+    by_cases hlt : t < l.length
+    · have : l.getD t 0 ∈ l := by rw [List.getD_eq_getElem?_getD, List.getElem?_eq_getElem hlt]; exact List.getElem_mem _
+      exact hx l hl _ this
+    · have : l.getD t 0 = 0 := by rw [List.getD_eq_getElem?_getD, List.getElem?_eq_none (by omega)]; rfl
+      rw [this]; simp
+      exact hr.hH0
+  have hv := C08.normalize_inter_value hr rs 0 (coefAt x t) ha
+  simp only [Int.toNat_zero, pow_zero, mul_one, neg_zero, Nat.add_zero] at hv
+  have hct : coefAt C t = normalizeInterCoef 64 b rs 0 (coefAt x t) := by
+    rw [hC, coefAt_ofCoefs rs _ t (by simpa using ht) (by simp [List.getD_eq_getElem?_getD, ht, hv.1])]
+    simp [List.getD_eq_getElem?_getD, ht]
+  have hlen : (coefAt x t).length = x.length := by simp [coefAt]
+  rw [hct]
+  refine ⟨rfl, hv.2.1, ?_, ?_⟩
+  · have := hv.2.2.1; rw [hlen] at this; exact this
+  · intro hle
+    have hcast : ((b * x.length : Nat) : Int) ≤ ((b * rs : Nat) : Int) := by exact_mod_cast hle
+    have := hv.2.2.2 (by rw [hlen]; linarith)
+    rw [hlen] at this; exact this
+
+example : (coefAt [[3], [0], [0], [0]] 0 = normalizeInterCoef 64 4 4 0 (coefAt [[3], [0], [0], [0]] 0)) ∧
+    NormL.TorusNear (valI 4 (coefAt [[3], [0], [0], [0]] 0)) (4 * 4) (valI 4 (coefAt [[3], [0], [0], [0]] 0)) (4 * 4) :=
+  let h := ep_result_coeff_same_radix (b := 4) (n := 1) (rs := 4) (H := 100)
+    ⟨by norm_num, by norm_num, by norm_num, by norm_num, by norm_num⟩ [[3], [0], [0], [0]] [[3], [0], [0], [0]]
+    (by intro l hl v hv; simp at hl; rcases hl with rfl | rfl <;> simp at hv <;> subst hv <;> norm_num) (by decide) 0 (by norm_num)
+  ⟨h.1, h.2.2.1⟩
+
+/-- the NTT120 (`i128` accumulator) twin of `ep_result_coeff_same_radix` (`C08.big_normalize128_inter_value`, radix `b ≤ 63`) -/
+theorem ep_result_coeff_same_radix128 {b n rs : Nat} {H : Int} (hr : NormL.HeadRoom 128 b 0 H) (hb : b ≤ 63) (x C : Col)
+    (hx : ∀ l ∈ x, ∀ v ∈ l, |v| ≤ H) (h : epBigNormalize true n b rs x b = some C) (t : Nat) (ht : t < n) :
+    coefAt C t = normalizeInterCoef 128 b rs 0 (coefAt x t) ∧
+    (∀ d ∈ coefAt C t, NormL.Balanced b d) ∧
+    NormL.TorusNear (valI b (coefAt C t)) (b * rs) (valI b (coefAt x t)) (b * x.length) ∧
+    (b * x.length ≤ b * rs → NormL.TorusEq (valI b (coefAt C t)) (b * rs) (valI b (coefAt x t)) (b * x.length)) := by
+  have ha : ∀ i, ∀ v ∈ coefAt x i, |v| ≤ H := by
+    intro i v hv
+    unfold coefAt at hv
+    simp only [List.mem_map] at hv
+    obtain ⟨l, hl, rfl⟩ := hv
+    by_cases hlt : i < l.length
+    · have : l.getD i 0 ∈ l := by rw [List.getD_eq_getElem?_getD, List.getElem?_eq_getElem hlt]; exact List.getElem_mem _
+      exact hx l hl _ this
+    · have : l.getD i 0 = 0 := by rw [List.getD_eq_getElem?_getD, List.getElem?_eq_none (by omega)]; rfl
+      rw [this]; simp
+      exact hr.hH0
+  have hm : (List.range n).mapM (fun i => bigNormalizeCoef128 b rs 0 b (coefAt x i))
+      = some ((List.range n).map (fun i => normalizeInterCoef 128 b rs 0 (coefAt x i))) :=
+    mapM_some_of_forall _ _ _ (fun i _ => (C08.big_normalize128_inter_value hr hb rs 0 (coefAt x i) (ha i)).1)
+  have hC : C = ofCoefs rs ((List.range n).map (fun i => normalizeInterCoef 128 b rs 0 (coefAt x i))) := by
+    unfold epBigNormalize bigNormalizeCol128? mapCoefs? at h
+    simp only [if_true, hm, Option.map_some, Option.some.injEq] at h
+    exact h.symm
+  have hv := C08.normalize_inter_value hr rs 0 (coefAt x t) (ha t)
+  simp only [Int.toNat_zero, pow_zero, mul_one, neg_zero, Nat.add_zero] at hv
+  have hct : coefAt C t = normalizeInterCoef 128 b rs 0 (coefAt x t) := by
+    rw [hC, coefAt_ofCoefs rs _ t (by simpa using ht) (by simp [List.getD_eq_getElem?_getD, ht, hv.1])]
+    simp [List.getD_eq_getElem?_getD, ht]
+  have hlen : (coefAt x t).length = x.length := by simp [coefAt]
+  rw [hct]
+  refine ⟨rfl, hv.2.1, ?_, ?_⟩
+  · have := hv.2.2.1; rw [hlen] at this; exact this
+  · intro hle
+    have hcast : ((b * x.length : Nat) : Int) ≤ ((b * rs : Nat) : Int) := by exact_mod_cast hle
+    have := hv.2.2.2 (by rw [hlen]; linarith)
+    rw [hlen] at this; exact this
+
+example : (coefAt [[3], [0], [0], [0]] 0 = normalizeInterCoef 128 4 4 0 (coefAt [[3], [0], [0], [0]] 0)) ∧
+    NormL.TorusNear (valI 4 (coefAt [[3], [0], [0], [0]] 0)) (4 * 4) (valI 4 (coefAt [[3], [0], [0], [0]] 0)) (4 * 4) :=
+  let h := ep_result_coeff_same_radix128 (b := 4) (n := 1) (rs := 4) (H := 100)
+    ⟨by norm_num, by norm_num, by norm_num, by norm_num, by norm_num⟩ (by norm_num) [[3], [0], [0], [0]] [[3], [0], [0], [0]]
+    (by intro l hl v hv; simp at hl; rcases hl with rfl | rfl <;> simp at hv <;> subst hv <;> norm_num) (by decide) 0 (by norm_num)
+  ⟨h.1, h.2.2.1⟩
+
+/-- **`ep_result_phase_modulo_norm`** — the torus-wrap step of `glwe_external_product` (hence of every cell of the GGLWE / GGSW forms),
+same or different radices, modulo the value specification of the normalisation kernel: if for every column the C08 kernel relation
+`A·val(normalised column) = B·val(accumulator column) + E_i` holds (`C08.normalize_inter_value` / `big_normalize128_inter_value` for equal
+radices, `C08.normalize_value_offset0` / `big_normalize128_value_offset0` across radices — `A`, `B` the two scales, `E_i` the rounding of the
+dropped limbs plus the multiple of the torus modulus), then the phase of the **result ciphertext** relates to the exact phase of the big
+accumulator (`ep_executed_identity`) in the same way, with the explicit error `E₀ + Σ s_i ⋆ E_{i+1}` (bounded by `(1 + Σ‖s_i‖₁)·max|E|`,
+`C02.phase_error_bound`). -/
+theorem ep_result_phase_modulo_norm {N : Nat} (big128 : Bool) (rb rs ab : Nat) (a aConv res : List Col) (g : EpGGSW)
+    (hg : (g.n == N && g.wf && shapeOk N (g.rank + 1) (a.getD 0 []).length a) = true)
+    (hc : epConvert N a ab g = some aConv)
+    (hok : glweExternalProduct big128 N rb rs a ab g = .ok res)
+    (A B : Int) (E : Nat → Poly) (hE : ∀ i, (E i).length = N)
+    (hbig : C02L.GWF N (Ks.mkCt g.base2k N (epInternal aConv g (zeroCols N (g.rank + 1) g.size) (zeroCols N (g.rank + 1) g.size))))
+    (hres : C02L.GWF N (Ks.mkCt rb N res))
+    (hK : ∀ i, i ≤ g.rank → ∀ C,
+      epBigNormalize big128 N rb rs ((epInternal aConv g (zeroCols N (g.rank + 1) g.size) (zeroCols N (g.rank + 1) g.size)).getD i []) g.base2k
+        = some C →
+      polyScale A (C02L.valP rb N C) = polyAdd (polyScale B (C02L.valP g.base2k N
+        ((epInternal aConv g (zeroCols N (g.rank + 1) g.size) (zeroCols N (g.rank + 1) g.size)).getD i []))) (E i))
+    (s : List Poly) :
+    polyScale A (C02L.valP rb N (Core.Ops.phase s (Ks.mkCt rb N res)))
+      = polyAdd (polyScale B (C02L.valP g.base2k N (Core.Ops.phase s (Ks.mkCt g.base2k N (epInternal aConv g (zeroCols N (g.rank + 1) g.size) (zeroCols N (g.rank + 1) g.size))))))
+        (C02L.errTo (min g.rank s.length) s E) := by
+  rw [glweExternalProduct_accumulator big128 N rb rs a ab g aConv hg hc] at hok
+  have hm := optOutcome_ok _ _ hok
+  have hlen : res.length = g.rank + 1 := by
+    rw [mapM_some_length _ _ _ hm, epInternal_length]
+  have hrank : (Ks.mkCt g.base2k N (epInternal aConv g (zeroCols N (g.rank + 1) g.size) (zeroCols N (g.rank + 1) g.size))).rank
+      = (Ks.mkCt rb N res).rank := by
+    simp [GLWE.rank, Ks.mkCt, hlen, epInternal_length]
+  have hr' : (Ks.mkCt rb N res).rank = g.rank := by simp [GLWE.rank, Ks.mkCt, hlen]
+  have h := C02.phase_value_modulo_norm (N := N) hres hbig hrank A B E hE (by
+    intro i hi
+    rw [hr'] at hi
+    have hi' : i < (epInternal aConv g (zeroCols N (g.rank + 1) g.size) (zeroCols N (g.rank + 1) g.size)).length := by
+      rw [epInternal_length]; omega
+    have hn := mapM_some_getD (fun c => epBigNormalize big128 N rb rs c g.base2k) [] [] _ _ hm i hi'
+    exact hK i hi _ hn) s
+  rw [hr'] at h
+  exact h
+
+example (s : List Poly) :
+    polyScale 1 (C02L.valP 4 1 (Core.Ops.phase s (Ks.mkCt 4 1 [[[3], [0], [0], [0]], [[0], [0], [0], [0]]])))
+      = polyAdd (polyScale 1 (C02L.valP 4 1 (Core.Ops.phase s (Ks.mkCt 4 1
+          (epInternal [[[1], [2], [3]], [[0], [1], [0]]] staleG (zeroCols 1 2 4) (zeroCols 1 2 4))))))
+        (C02L.errTo (min 1 s.length) s (fun _ => [0])) :=
+  ep_result_phase_modulo_norm (N := 1) false 4 4 4 [[[1], [2], [3]], [[0], [1], [0]]] [[[1], [2], [3]], [[0], [1], [0]]]
+    [[[3], [0], [0], [0]], [[0], [0], [0], [0]]] staleG (by decide) (by decide) (by decide) 1 1 (fun _ => [0]) (fun _ => rfl)
+    (by decide) (by decide)
+    (by
+      intro i hi C hC
+      have hi' : i = 0 ∨ i = 1 := by have : i ≤ 1 := hi; omega
+      rcases hi' with rfl | rfl
+      · have e : epBigNormalize false 1 4 4 ((epInternal [[[1], [2], [3]], [[0], [1], [0]]] staleG (zeroCols 1 2 4) (zeroCols 1 2 4)).getD 0 []) 4
+            = some [[3], [0], [0], [0]] := by decide
+        have hC' := e.symm.trans hC; injection hC' with hC'; subst hC'; decide
+      · have e : epBigNormalize false 1 4 4 ((epInternal [[[1], [2], [3]], [[0], [1], [0]]] staleG (zeroCols 1 2 4) (zeroCols 1 2 4)).getD 1 []) 4
+            = some [[0], [0], [0], [0]] := by decide
+        have hC' := e.symm.trans hC; injection hC' with hC'; subst hC'; decide) s
+
+/-! ## Composed statement: the result ciphertext decrypts to `m2 · phase(a)` plus explicit terms, one value domain -/
+
+/-- **`ep_decrypts`** — `glwe_external_product` (every `dsize ≥ 1`, every rank, same or different radices), `ep_executed_identity` and
+`ep_result_phase_modulo_norm` composed in `R N = ℤ[X]/(X^N+1)` with `β = 2^{base2k(ggsw)}` (`Lemmas/ValBridge.lean`): `A · phase(result)` equals
+`B · (m2·Σ_i σ_i·usedVal(a_i) + Σ_i(Σ_r digit·E − dropped − β^S·head))` plus the normalisation error `E₀ + Σ s_i E_{i+1}`, where `(A, B, En)` is the
+C08 kernel's value relation on each accumulator column (`hK`; `ep_result_coeff_same_radix` gives it outright per coefficient for equal radices).
+Each cell of GGSW × GGLWE / GGSW × GGSW is this statement. -/
+theorem ep_decrypts {N : Nat} (big128 : Bool) (rb rs ab : Nat) (a aConv res : List Col) (g : EpGGSW) (sk : List Poly)
+    (hg : (g.n == N && g.wf && shapeOk N (g.rank + 1) (a.getD 0 []).length a) = true)
+    (hc : epConvert N a ab g = some aConv)
+    (hok : glweExternalProduct big128 N rb rs a ab g = .ok res)
+    (A B : Int) (En : Nat → Poly) (hEn : ∀ i, (En i).length = N)
+    (hwf : ∀ c ∈ epInternal aConv g (zeroCols N (g.rank + 1) g.size) (zeroCols N (g.rank + 1) g.size), C02L.ColWF N g.size c)
+    (hres : C02L.GWF N (Ks.mkCt rb N res))
+    (hK : ∀ i, i ≤ g.rank → ∀ C,
+      epBigNormalize big128 N rb rs ((epInternal aConv g (zeroCols N (g.rank + 1) g.size) (zeroCols N (g.rank + 1) g.size)).getD i []) g.base2k
+        = some C →
+      polyScale A (C02L.valP rb N C) = polyAdd (polyScale B (C02L.valP g.base2k N
+        ((epInternal aConv g (zeroCols N (g.rank + 1) g.size) (zeroCols N (g.rank + 1) g.size)).getD i []))) (En i))
+    (m2 : Ks.R N) (σ : ℕ → Ks.R N) (E : ℕ → ℕ → Ks.R N)
+    (hd : 1 ≤ g.dsize) (hN : 0 < N) (hn : g.n = N)
+    (haC : shapeOk g.n (g.rank + 1) (aConv.getD 0 []).length aConv = true)
+    (hM : ∀ j q, (g.toPMat.entry j q).length = N) (hS : g.dnum * g.dsize ≤ g.size)
+    (hkey : ∀ i, i < g.rank + 1 → ∀ r, r < g.dnum →
+      Gadget.val ((2 : Ks.R N) ^ g.base2k) g.size (Ks.keyPhase N sk g.toPMat i r)
+        = m2 * σ i * ((2 : Ks.R N) ^ g.base2k) ^ (g.size - (r + 1) * g.dsize) + E i r) :
+    (A : Ks.R N) * Ks.ι N (C02L.valP rb N (Core.Ops.phase sk (Ks.mkCt rb N res)))
+      = (B : Ks.R N) * (m2 * ∑ i ∈ Finset.range (g.rank + 1),
+            σ i * Gadget.usedVal ((2 : Ks.R N) ^ g.base2k) g.size g.dsize g.dnum (aConv.getD 0 []).length
+              (Ks.inLimb N (mkBuf g.n (g.rank + 1) (aConv.getD 0 []).length aConv) i)
+        + ∑ i ∈ Finset.range (g.rank + 1),
+            (∑ r ∈ Finset.range g.dnum,
+                Gadget.digit ((2 : Ks.R N) ^ g.base2k) g.dsize g.dnum (aConv.getD 0 []).length
+                  (Ks.inLimb N (mkBuf g.n (g.rank + 1) (aConv.getD 0 []).length aConv) i) r * E i r
+              - Gadget.dropped ((2 : Ks.R N) ^ g.base2k) g.size g.dsize g.dnum (aConv.getD 0 []).length
+                  (Ks.inLimb N (mkBuf g.n (g.rank + 1) (aConv.getD 0 []).length aConv) i) (Ks.keyPhase N sk g.toPMat i)
+              - ((2 : Ks.R N) ^ g.base2k) ^ g.size * Gadget.head ((2 : Ks.R N) ^ g.base2k) g.dsize g.dnum (aConv.getD 0 []).length
+                  (Ks.inLimb N (mkBuf g.n (g.rank + 1) (aConv.getD 0 []).length aConv) i) (Ks.keyPhase N sk g.toPMat i)))
+        + Ks.ι N (C02L.errTo (min g.rank sk.length) sk En) := by
+  have hlen := epInternal_length aConv g (zeroCols N (g.rank + 1) g.size) (zeroCols N (g.rank + 1) g.size)
+  have hne : epInternal aConv g (zeroCols N (g.rank + 1) g.size) (zeroCols N (g.rank + 1) g.size) ≠ [] := by
+    intro h
+    rw [h] at hlen
+    simp at hlen
+  have hbig : C02L.GWF N (Ks.mkCt g.base2k N (epInternal aConv g (zeroCols N (g.rank + 1) g.size) (zeroCols N (g.rank + 1) g.size))) := by
+    refine ⟨rfl, hne, ?_⟩
+    intro c hcm
+    have e : (Ks.mkCt g.base2k N (epInternal aConv g (zeroCols N (g.rank + 1) g.size) (zeroCols N (g.rank + 1) g.size))).size = g.size := by
+      show ((epInternal aConv g (zeroCols N (g.rank + 1) g.size) (zeroCols N (g.rank + 1) g.size)).getD 0 []).length = g.size
+      have h0 : 0 < (epInternal aConv g (zeroCols N (g.rank + 1) g.size) (zeroCols N (g.rank + 1) g.size)).length := by rw [hlen]; omega
+      rw [List.getD_eq_getElem?_getD, List.getElem?_eq_getElem h0]
+      exact (hwf _ (List.getElem_mem h0)).1
+    rw [e]
+    exact hwf c hcm
+  have h1 := ep_result_phase_modulo_norm big128 rb rs ab a aConv res g hg hc hok A B En hEn hbig hres hK sk
+  have h2 := phase_norm_compose N hN rb g.base2k g.size sk res _ hne hwf A B _ (C02L.errTo_length _ sk En hEn) h1
+  have hz : shapeOk g.n (g.rank + 1) g.size (zeroCols N (g.rank + 1) g.size) = true := by
+    rw [hn]; unfold shapeOk zeroCols; simp [Hal.zeroP]
+  have h3 := ep_executed_identity N sk aConv g (zeroCols N (g.rank + 1) g.size) (zeroCols N (g.rank + 1) g.size) ((2 : Ks.R N) ^ g.base2k) m2 σ E
+    hd hN hn haC hz hz hM hS hkey
+  rw [h2, h3]
+
+example (m2 : Ks.R 1) (σ : ℕ → Ks.R 1) :
+    ((1 : Int) : Ks.R 1) * Ks.ι 1 (C02L.valP 4 1 (Core.Ops.phase [[1]] (Ks.mkCt 4 1 [[[3], [0], [0], [0]], [[0], [0], [0], [0]]])))
+      = ((1 : Int) : Ks.R 1) * (m2 * ∑ i ∈ Finset.range (staleG.rank + 1),
+            σ i * Gadget.usedVal ((2 : Ks.R 1) ^ staleG.base2k) staleG.size staleG.dsize staleG.dnum (([[[1], [2], [3]], [[0], [1], [0]]] : List Col).getD 0 []).length
+              (Ks.inLimb 1 (mkBuf staleG.n (staleG.rank + 1) (([[[1], [2], [3]], [[0], [1], [0]]] : List Col).getD 0 []).length [[[1], [2], [3]], [[0], [1], [0]]]) i)
+        + ∑ i ∈ Finset.range (staleG.rank + 1),
+            (∑ r ∈ Finset.range staleG.dnum,
+                Gadget.digit ((2 : Ks.R 1) ^ staleG.base2k) staleG.dsize staleG.dnum (([[[1], [2], [3]], [[0], [1], [0]]] : List Col).getD 0 []).length
+                  (Ks.inLimb 1 (mkBuf staleG.n (staleG.rank + 1) (([[[1], [2], [3]], [[0], [1], [0]]] : List Col).getD 0 []).length [[[1], [2], [3]], [[0], [1], [0]]]) i) r *
+                  (Gadget.val ((2 : Ks.R 1) ^ staleG.base2k) staleG.size (Ks.keyPhase 1 [[1]] staleG.toPMat i r)
+                    - m2 * σ i * ((2 : Ks.R 1) ^ staleG.base2k) ^ (staleG.size - (r + 1) * staleG.dsize))
+              - Gadget.dropped ((2 : Ks.R 1) ^ staleG.base2k) staleG.size staleG.dsize staleG.dnum (([[[1], [2], [3]], [[0], [1], [0]]] : List Col).getD 0 []).length
+                  (Ks.inLimb 1 (mkBuf staleG.n (staleG.rank + 1) (([[[1], [2], [3]], [[0], [1], [0]]] : List Col).getD 0 []).length [[[1], [2], [3]], [[0], [1], [0]]]) i) (Ks.keyPhase 1 [[1]] staleG.toPMat i)
+              - ((2 : Ks.R 1) ^ staleG.base2k) ^ staleG.size * Gadget.head ((2 : Ks.R 1) ^ staleG.base2k) staleG.dsize staleG.dnum (([[[1], [2], [3]], [[0], [1], [0]]] : List Col).getD 0 []).length
+                  (Ks.inLimb 1 (mkBuf staleG.n (staleG.rank + 1) (([[[1], [2], [3]], [[0], [1], [0]]] : List Col).getD 0 []).length [[[1], [2], [3]], [[0], [1], [0]]]) i) (Ks.keyPhase 1 [[1]] staleG.toPMat i)))
+        + Ks.ι 1 (C02L.errTo (min staleG.rank ([[1]] : List Poly).length) [[1]] (fun _ => [0])) :=
+  ep_decrypts (N := 1) false 4 4 4 [[[1], [2], [3]], [[0], [1], [0]]] [[[1], [2], [3]], [[0], [1], [0]]]
+    [[[3], [0], [0], [0]], [[0], [0], [0], [0]]] staleG [[1]] (by decide) (by decide) (by decide) 1 1 (fun _ => [0]) (fun _ => rfl)
+    (by decide) (by decide)
+    (by
+      intro i hi C hC
+      have hi' : i = 0 ∨ i = 1 := by have : i ≤ 1 := hi; omega
+      rcases hi' with rfl | rfl
+      · have e : epBigNormalize false 1 4 4 ((epInternal [[[1], [2], [3]], [[0], [1], [0]]] staleG (zeroCols 1 2 4) (zeroCols 1 2 4)).getD 0 []) 4
+            = some [[3], [0], [0], [0]] := by decide
+        have hC' := e.symm.trans hC; injection hC' with hC'; subst hC'; decide
+      · have e : epBigNormalize false 1 4 4 ((epInternal [[[1], [2], [3]], [[0], [1], [0]]] staleG (zeroCols 1 2 4) (zeroCols 1 2 4)).getD 1 []) 4
+            = some [[0], [0], [0], [0]] := by decide
+        have hC' := e.symm.trans hC; injection hC' with hC'; subst hC'; decide)
+    m2 σ (fun i r => Gadget.val ((2 : Ks.R 1) ^ staleG.base2k) staleG.size (Ks.keyPhase 1 [[1]] staleG.toPMat i r)
+                    - m2 * σ i * ((2 : Ks.R 1) ^ staleG.base2k) ^ (staleG.size - (r + 1) * staleG.dsize))
+    (by decide) (by decide) rfl (by decide) (Ks.entry_length staleG.toPMat 1 rfl (by decide)) (by decide)
+    (by intro i _ r _; exact (add_sub_cancel _ _).symm)
+instance (c : Col) : Decidable (C02L.ColSmall c) := by unfold C02L.ColSmall C02L.PolySmall; infer_instance
+instance (N : Nat) (c : Col) : Decidable (C02L.LimbsN N c) := by unfold C02L.LimbsN; infer_instance
+
+/-- **`cmux_decrypts`** — `Cmux::cmux` on the i64 accumulator (FFT64 back ends), every `dsize ≥ 1`, every rank: one composed statement.  With
+the no-overflow lemma `Core.bigAddSmallAssign_exact` (2^62 head-room on the product and on `f`, `Lemmas/AccAdd.lean`) the accumulator is the exact
+limb-wise sum `P + fit(f)`, the phase value is additive (`ι_valP_phase_add`), `P = epInternal (t − f)` has the value of `ep_executed_identity`, and the
+final normalisation contributes the kernel relation `(A, B, En)`:
+`A·phase(res) = B·(m2·Σ_i σ_i·usedVal((t−f)_i) + Σ_i(Σ_r digit·E − dropped − β^S·head) + phase(f at S limbs)) + (E₀ + Σ s_i E_{i+1})` —
+`m2 = 0` gives `f`, `m2 = 1` gives `t` up to the gadget's dropped limbs (`cmux_selects` is the algebraic form). -/
+theorem cmux_decrypts {N : Nat} (rb rs : Nat) (t f res : List Col) (g : EpGGSW) (res0 tmp0 : List Col) (sk : List Poly)
+    (hg : (g.n == N && g.wf && rb == g.base2k && shapeOk N (g.rank + 1) (t.getD 0 []).length t
+       && shapeOk N (g.rank + 1) (f.getD 0 []).length f) = true)
+    (hok : cmux false N rb rs t f g res0 tmp0 = .ok res)
+    (A B : Int) (En : Nat → Poly) (hEn : ∀ i, (En i).length = N)
+    (hPwf : ∀ c ∈ epInternal (glweSubSameRank N rs t f) g res0 tmp0, C02L.ColWF N g.size c)
+    (hPs : ∀ c ∈ epInternal (glweSubSameRank N rs t f) g res0 tmp0, C02L.ColSmall c)
+    (hfwf : ∀ j, j < g.rank + 1 → C02L.LimbsN N (f.getD j [])) (hfs : ∀ j, j < g.rank + 1 → C02L.ColSmall (f.getD j []))
+    (hres : C02L.GWF N (Ks.mkCt rb N res))
+    (hK : ∀ i, i < g.rank + 1 → ∀ C,
+      epBigNormalize false N rb rs (bigAddSmallAssign false ((epInternal (glweSubSameRank N rs t f) g res0 tmp0).getD i []) (f.getD i [])) g.base2k
+        = some C →
+      polyScale A (C02L.valP rb N C) = polyAdd (polyScale B (C02L.valP g.base2k N
+        (bigAddSmallAssign false ((epInternal (glweSubSameRank N rs t f) g res0 tmp0).getD i []) (f.getD i [])))) (En i))
+    (m2 : Ks.R N) (σ : ℕ → Ks.R N) (E : ℕ → ℕ → Ks.R N)
+    (hd : 1 ≤ g.dsize) (hN : 0 < N) (hn : g.n = N)
+    (haD : shapeOk g.n (g.rank + 1) ((glweSubSameRank N rs t f).getD 0 []).length (glweSubSameRank N rs t f) = true)
+    (h0 : shapeOk g.n (g.rank + 1) g.size res0 = true) (ht : shapeOk g.n (g.rank + 1) g.size tmp0 = true)
+    (hM : ∀ j q, (g.toPMat.entry j q).length = N) (hS : g.dnum * g.dsize ≤ g.size)
+    (hkey : ∀ i, i < g.rank + 1 → ∀ r, r < g.dnum →
+      Gadget.val ((2 : Ks.R N) ^ g.base2k) g.size (Ks.keyPhase N sk g.toPMat i r)
+        = m2 * σ i * ((2 : Ks.R N) ^ g.base2k) ^ (g.size - (r + 1) * g.dsize) + E i r) :
+    (A : Ks.R N) * Ks.ι N (C02L.valP rb N (Core.Ops.phase sk (Ks.mkCt rb N res)))
+      = (B : Ks.R N) * ((m2 * ∑ i ∈ Finset.range (g.rank + 1),
+            σ i * Gadget.usedVal ((2 : Ks.R N) ^ g.base2k) g.size g.dsize g.dnum ((glweSubSameRank N rs t f).getD 0 []).length
+              (Ks.inLimb N (mkBuf g.n (g.rank + 1) ((glweSubSameRank N rs t f).getD 0 []).length (glweSubSameRank N rs t f)) i)
+        + ∑ i ∈ Finset.range (g.rank + 1),
+            (∑ r ∈ Finset.range g.dnum,
+                Gadget.digit ((2 : Ks.R N) ^ g.base2k) g.dsize g.dnum ((glweSubSameRank N rs t f).getD 0 []).length
+                  (Ks.inLimb N (mkBuf g.n (g.rank + 1) ((glweSubSameRank N rs t f).getD 0 []).length (glweSubSameRank N rs t f)) i) r * E i r
+              - Gadget.dropped ((2 : Ks.R N) ^ g.base2k) g.size g.dsize g.dnum ((glweSubSameRank N rs t f).getD 0 []).length
+                  (Ks.inLimb N (mkBuf g.n (g.rank + 1) ((glweSubSameRank N rs t f).getD 0 []).length (glweSubSameRank N rs t f)) i) (Ks.keyPhase N sk g.toPMat i)
+              - ((2 : Ks.R N) ^ g.base2k) ^ g.size * Gadget.head ((2 : Ks.R N) ^ g.base2k) g.dsize g.dnum ((glweSubSameRank N rs t f).getD 0 []).length
+                  (Ks.inLimb N (mkBuf g.n (g.rank + 1) ((glweSubSameRank N rs t f).getD 0 []).length (glweSubSameRank N rs t f)) i) (Ks.keyPhase N sk g.toPMat i)))
+          + Ks.ι N (C02L.valP g.base2k N (Core.Ops.phase sk (Ks.mkCt g.base2k N
+              ((List.range (g.rank + 1)).map (fun j => C02L.fit N g.size (f.getD j [])))))))
+        + Ks.ι N (C02L.errTo (min g.rank sk.length) sk En) := by
+  have hlen := epInternal_length (glweSubSameRank N rs t f) g res0 tmp0
+  have hPget : ∀ j, j < g.rank + 1 → C02L.ColWF N g.size ((epInternal (glweSubSameRank N rs t f) g res0 tmp0).getD j []) ∧
+      C02L.ColSmall ((epInternal (glweSubSameRank N rs t f) g res0 tmp0).getD j []) := by
+    intro j hj
+    have hj' : j < (epInternal (glweSubSameRank N rs t f) g res0 tmp0).length := by rw [hlen]; exact hj
+    rw [List.getD_eq_getElem?_getD, List.getElem?_eq_getElem hj']
+    exact ⟨hPwf _ (List.getElem_mem hj'), hPs _ (List.getElem_mem hj')⟩
+  rw [cmux_accumulator false N rb rs t f g res0 tmp0 hg] at hok
+  have hm := optOutcome_ok _ _ hok
+  rw [mapM_comp (fun j => bigAddSmallAssign false ((epInternal (glweSubSameRank N rs t f) g res0 tmp0).getD j []) (f.getD j []))
+    (fun c => epBigNormalize false N rb rs c g.base2k)] at hm
+  have hacc_eq : (List.range (g.rank + 1)).map (fun j => bigAddSmallAssign false ((epInternal (glweSubSameRank N rs t f) g res0 tmp0).getD j []) (f.getD j []))
+      = (List.range (g.rank + 1)).map (fun j => C02L.colAdd ((epInternal (glweSubSameRank N rs t f) g res0 tmp0).getD j []) (C02L.fit N g.size (f.getD j []))) := by
+    apply List.map_congr_left
+    intro j hj
+    have hj' := List.mem_range.mp hj
+    rw [bigAddSmallAssign_exact (N := N) _ _ (hPget j hj').1.2 (hPget j hj').2 (hfs j hj'), (hPget j hj').1.1]
+  have hqwf : ∀ j, j < g.rank + 1 → C02L.ColWF N g.size (C02L.fit N g.size (f.getD j [])) := fun j hj => C02L.fit_wf (hfwf j hj) g.size
+  have hadd := ι_valP_phase_add N hN g.base2k g.size sk g.rank (fun j => (epInternal (glweSubSameRank N rs t f) g res0 tmp0).getD j [])
+    (fun j => C02L.fit N g.size (f.getD j [])) (fun j hj => (hPget j hj).1) hqwf
+  have hPmap : (List.range (g.rank + 1)).map (fun j => (epInternal (glweSubSameRank N rs t f) g res0 tmp0).getD j [])
+      = epInternal (glweSubSameRank N rs t f) g res0 tmp0 := by
+    apply List.ext_getElem
+    · simp [hlen]
+    · intro i h1 h2
+      simp [List.getD_eq_getElem?_getD, List.getElem?_eq_getElem h2]
+  rw [hPmap] at hadd
+  have hne : epInternal (glweSubSameRank N rs t f) g res0 tmp0 ≠ [] := by
+    intro h; rw [h] at hlen; simp at hlen
+  have hsumwf : ∀ c ∈ (List.range (g.rank + 1)).map (fun j => C02L.colAdd ((epInternal (glweSubSameRank N rs t f) g res0 tmp0).getD j []) (C02L.fit N g.size (f.getD j []))),
+      C02L.ColWF N g.size c := by
+    intro c hc
+    obtain ⟨j, hj, rfl⟩ := List.mem_map.mp hc
+    have hj' := List.mem_range.mp hj
+    exact C02L.colAdd_wf (hPget j hj').1 (hqwf j hj')
+  have hnes : (List.range (g.rank + 1)).map (fun j => C02L.colAdd ((epInternal (glweSubSameRank N rs t f) g res0 tmp0).getD j []) (C02L.fit N g.size (f.getD j []))) ≠ [] := by
+    intro h; have := congrArg List.length h; simp at this
+  have hacc : C02L.GWF N (Ks.mkCt g.base2k N ((List.range (g.rank + 1)).map (fun j => C02L.colAdd ((epInternal (glweSubSameRank N rs t f) g res0 tmp0).getD j []) (C02L.fit N g.size (f.getD j []))))) := by
+    refine ⟨rfl, hnes, ?_⟩
+    intro c hc
+    have e : (Ks.mkCt g.base2k N ((List.range (g.rank + 1)).map (fun j => C02L.colAdd ((epInternal (glweSubSameRank N rs t f) g res0 tmp0).getD j []) (C02L.fit N g.size (f.getD j []))))).size = g.size := by
+      show (((List.range (g.rank + 1)).map (fun j => C02L.colAdd ((epInternal (glweSubSameRank N rs t f) g res0 tmp0).getD j []) (C02L.fit N g.size (f.getD j [])))).getD 0 []).length = g.size
+      have h0' : 0 < ((List.range (g.rank + 1)).map (fun j => C02L.colAdd ((epInternal (glweSubSameRank N rs t f) g res0 tmp0).getD j []) (C02L.fit N g.size (f.getD j [])))).length := by simp
+      rw [List.getD_eq_getElem?_getD, List.getElem?_eq_getElem h0']
+      exact (hsumwf _ (List.getElem_mem h0')).1
+    rw [e]
+    exact hsumwf c hc
+  rw [hacc_eq] at hm
+  have h1 := mapM_kernel_phase_modulo_norm (fun c => epBigNormalize false N rb rs c g.base2k) rb g.base2k _ res hm hres hacc A B En hEn (by
+    intro i hi C hC
+    have hi' : i < g.rank + 1 := by simpa using hi
+    have e : ((List.range (g.rank + 1)).map (fun j => C02L.colAdd ((epInternal (glweSubSameRank N rs t f) g res0 tmp0).getD j []) (C02L.fit N g.size (f.getD j [])))).getD i []
+        = ((List.range (g.rank + 1)).map (fun j => bigAddSmallAssign false ((epInternal (glweSubSameRank N rs t f) g res0 tmp0).getD j []) (f.getD j []))).getD i [] := by
+      rw [hacc_eq]
+    rw [e] at hC ⊢
+    have e2 : ((List.range (g.rank + 1)).map (fun j => bigAddSmallAssign false ((epInternal (glweSubSameRank N rs t f) g res0 tmp0).getD j []) (f.getD j []))).getD i []
+        = bigAddSmallAssign false ((epInternal (glweSubSameRank N rs t f) g res0 tmp0).getD i []) (f.getD i []) := by
+      simp [List.getD_eq_getElem?_getD, List.getElem?_map, List.getElem?_range hi']
+    rw [e2] at hC ⊢
+    exact hK i hi' C hC) sk
+  have e1 : ((List.range (g.rank + 1)).map (fun j => C02L.colAdd ((epInternal (glweSubSameRank N rs t f) g res0 tmp0).getD j []) (C02L.fit N g.size (f.getD j [])))).length - 1 = g.rank := by simp
+  rw [e1] at h1
+  have h2 := phase_norm_ι N rb g.base2k sk res _ A B _ (C02L.errTo_length _ sk En hEn) h1
+  have h3 := ep_executed_identity N sk (glweSubSameRank N rs t f) g res0 tmp0 ((2 : Ks.R N) ^ g.base2k) m2 σ E hd hN hn haD h0 ht hM hS hkey
+  rw [h2, hadd, ι_valP_phase_rows' N hN g.base2k g.size sk _ hne hPwf, h3]
+
+example (m2 : Ks.R 1) (σ : ℕ → Ks.R 1) :
+    ((16 : Int) : Ks.R 1) * Ks.ι 1 (C02L.valP 4 1 (Core.Ops.phase [[1]] (Ks.mkCt 4 1 [[[2], [0], [1]], [[0], [0], [0]]])))
+      = ((1 : Int) : Ks.R 1) * ((m2 * ∑ i ∈ Finset.range (staleG.rank + 1),
+            σ i * Gadget.usedVal ((2 : Ks.R 1) ^ staleG.base2k) staleG.size staleG.dsize staleG.dnum ((glweSubSameRank 1 3 ([[[1], [2], [3]], [[0], [1], [0]]] : List Col) ([[[0], [0], [1]], [[0], [0], [0]]] : List Col)).getD 0 []).length
+              (Ks.inLimb 1 (mkBuf staleG.n (staleG.rank + 1) ((glweSubSameRank 1 3 ([[[1], [2], [3]], [[0], [1], [0]]] : List Col) ([[[0], [0], [1]], [[0], [0], [0]]] : List Col)).getD 0 []).length (glweSubSameRank 1 3 ([[[1], [2], [3]], [[0], [1], [0]]] : List Col) ([[[0], [0], [1]], [[0], [0], [0]]] : List Col))) i)
+        + ∑ i ∈ Finset.range (staleG.rank + 1),
+            (∑ r ∈ Finset.range staleG.dnum,
+                Gadget.digit ((2 : Ks.R 1) ^ staleG.base2k) staleG.dsize staleG.dnum ((glweSubSameRank 1 3 ([[[1], [2], [3]], [[0], [1], [0]]] : List Col) ([[[0], [0], [1]], [[0], [0], [0]]] : List Col)).getD 0 []).length
+                  (Ks.inLimb 1 (mkBuf staleG.n (staleG.rank + 1) ((glweSubSameRank 1 3 ([[[1], [2], [3]], [[0], [1], [0]]] : List Col) ([[[0], [0], [1]], [[0], [0], [0]]] : List Col)).getD 0 []).length (glweSubSameRank 1 3 ([[[1], [2], [3]], [[0], [1], [0]]] : List Col) ([[[0], [0], [1]], [[0], [0], [0]]] : List Col))) i) r *
+                  (Gadget.val ((2 : Ks.R 1) ^ staleG.base2k) staleG.size (Ks.keyPhase 1 [[1]] staleG.toPMat i r)
+                    - m2 * σ i * ((2 : Ks.R 1) ^ staleG.base2k) ^ (staleG.size - (r + 1) * staleG.dsize))
+              - Gadget.dropped ((2 : Ks.R 1) ^ staleG.base2k) staleG.size staleG.dsize staleG.dnum ((glweSubSameRank 1 3 ([[[1], [2], [3]], [[0], [1], [0]]] : List Col) ([[[0], [0], [1]], [[0], [0], [0]]] : List Col)).getD 0 []).length
+                  (Ks.inLimb 1 (mkBuf staleG.n (staleG.rank + 1) ((glweSubSameRank 1 3 ([[[1], [2], [3]], [[0], [1], [0]]] : List Col) ([[[0], [0], [1]], [[0], [0], [0]]] : List Col)).getD 0 []).length (glweSubSameRank 1 3 ([[[1], [2], [3]], [[0], [1], [0]]] : List Col) ([[[0], [0], [1]], [[0], [0], [0]]] : List Col))) i) (Ks.keyPhase 1 [[1]] staleG.toPMat i)
+              - ((2 : Ks.R 1) ^ staleG.base2k) ^ staleG.size * Gadget.head ((2 : Ks.R 1) ^ staleG.base2k) staleG.dsize staleG.dnum ((glweSubSameRank 1 3 ([[[1], [2], [3]], [[0], [1], [0]]] : List Col) ([[[0], [0], [1]], [[0], [0], [0]]] : List Col)).getD 0 []).length
+                  (Ks.inLimb 1 (mkBuf staleG.n (staleG.rank + 1) ((glweSubSameRank 1 3 ([[[1], [2], [3]], [[0], [1], [0]]] : List Col) ([[[0], [0], [1]], [[0], [0], [0]]] : List Col)).getD 0 []).length (glweSubSameRank 1 3 ([[[1], [2], [3]], [[0], [1], [0]]] : List Col) ([[[0], [0], [1]], [[0], [0], [0]]] : List Col))) i) (Ks.keyPhase 1 [[1]] staleG.toPMat i)))
+          + Ks.ι 1 (C02L.valP staleG.base2k 1 (Core.Ops.phase [[1]] (Ks.mkCt staleG.base2k 1
+              ((List.range (staleG.rank + 1)).map (fun j => C02L.fit 1 staleG.size (([[[0], [0], [1]], [[0], [0], [0]]] : List Col).getD j [])))))))
+        + Ks.ι 1 (C02L.errTo (min staleG.rank ([[1]] : List Poly).length) [[1]] (fun _ => [0])) :=
+  cmux_decrypts (N := 1) 4 3 ([[[1], [2], [3]], [[0], [1], [0]]] : List Col) ([[[0], [0], [1]], [[0], [0], [0]]] : List Col) [[[2], [0], [1]], [[0], [0], [0]]] staleG (zeroCols 1 2 4) (zeroCols 1 2 4) [[1]]
+    (by decide) (by decide) 16 1 (fun _ => [0]) (fun _ => rfl)
+    (by decide) (by decide) (by decide) (by decide) (by decide)
+    (by
+      intro i hi C hC
+      have hi' : i = 0 ∨ i = 1 := by have : i < 2 := hi; omega
+      rcases hi' with rfl | rfl
+      · have e : epBigNormalize false 1 4 3 (bigAddSmallAssign false ((epInternal (glweSubSameRank 1 3 ([[[1], [2], [3]], [[0], [1], [0]]] : List Col) ([[[0], [0], [1]], [[0], [0], [0]]] : List Col)) staleG (zeroCols 1 2 4) (zeroCols 1 2 4)).getD 0 []) (([[[0], [0], [1]], [[0], [0], [0]]] : List Col).getD 0 [])) staleG.base2k
+            = some [[2], [0], [1]] := by decide
+        have hC' := e.symm.trans hC; injection hC' with hC'; subst hC'; decide
+      · have e : epBigNormalize false 1 4 3 (bigAddSmallAssign false ((epInternal (glweSubSameRank 1 3 ([[[1], [2], [3]], [[0], [1], [0]]] : List Col) ([[[0], [0], [1]], [[0], [0], [0]]] : List Col)) staleG (zeroCols 1 2 4) (zeroCols 1 2 4)).getD 1 []) (([[[0], [0], [1]], [[0], [0], [0]]] : List Col).getD 1 [])) staleG.base2k
+            = some [[0], [0], [0]] := by decide
+        have hC' := e.symm.trans hC; injection hC' with hC'; subst hC'; decide)
+    m2 σ (fun i r => Gadget.val ((2 : Ks.R 1) ^ staleG.base2k) staleG.size (Ks.keyPhase 1 [[1]] staleG.toPMat i r)
+                    - m2 * σ i * ((2 : Ks.R 1) ^ staleG.base2k) ^ (staleG.size - (r + 1) * staleG.dsize))
+    (by decide) (by decide) rfl (by decide) (by decide) (by decide) (Ks.entry_length staleG.toPMat 1 rfl (by decide)) (by decide)
+    (by intro i _ r _; exact (add_sub_cancel _ _).symm)
 end C04
